@@ -103,6 +103,9 @@ def gen_case(rng, i, tier):
                 call["to"][a] = None
     if rng.random() < 0.3:
         call["keep_coords"] = rng.random() < 0.5
+    if rng.random() < 0.2:
+        # numeric fill values of NumPy types (all drawn fills are exact in single precision)
+        call["np_fill"] = rng.choice(["float32", "int64", "0d", "float64"])
     b = gen.random_spelling(rng, axn, gen.RULES, p_none=0.35)
     f = gen.random_spelling(rng, axn, FILLS, p_none=0.35)
     if b is not None:
@@ -213,8 +216,26 @@ def effective_to(desc):
     return opax, out
 
 
+def np_spelled(v, how):
+    """The same number handed over as a NumPy scalar / 0-d array (as it comes out of `da.values.max()` or a config array)."""
+    if v is None or how is None:
+        return v
+    if isinstance(v, dict):
+        return {k: np_spelled(x, how) for k, x in v.items()}
+    if how == "float32":
+        return np.float32(v)
+    if how == "int64":
+        return np.int64(v) if float(v).is_integer() else np.float64(v)
+    if how == "0d":
+        return np.array(v)
+    return np.float64(v)
+
+
 def call_kwargs(call):
-    return {k: call[k] for k in ("to", "boundary", "fill_value", "keep_coords") if k in call}
+    kw = {k: call[k] for k in ("to", "boundary", "fill_value", "keep_coords") if k in call}
+    if "fill_value" in kw and call.get("np_fill"):
+        kw["fill_value"] = np_spelled(kw["fill_value"], call["np_fill"])
+    return kw
 
 
 def run_case(ctx, desc):
